@@ -139,6 +139,9 @@ struct Scen {
     reuse_model: ModelTree,
     new_model: ModelTree,
     desc: String,
+    /// the same repository before the first snapshot was forgotten: a prune finds nothing to do there
+    base_full: Vec<StoreState>,
+    models_full: BTreeMap<Id, ModelTree>,
 }
 
 fn build(r: &mut Rng) -> Result<Scen, String> {
@@ -152,6 +155,18 @@ fn build(r: &mut Rng) -> Result<Scen, String> {
         }
         let _ = h.backup(r.chance(1, 2))?;
     }
+    // the same repository with nothing forgotten and its index consolidated into one file by a prune: the next prune
+    // finds nothing at all to do
+    let (base_full, models_full) = {
+        let u = Universe::from_states(h.uni.snapshot());
+        u.lock().recording = false;
+        let e = Env::single(u.clone(), h.key.clone());
+        let mut s = PruneSpec::default_safe();
+        s.no_resize = true;
+        s.max_unused = Limit::Unlimited;
+        let _ = Cmd::Prune { spec: s }.run(&e);
+        (u.snapshot(), h.snaps.clone())
+    };
     // forget the first snapshot: its packs become prunable; a concurrent backup of the same content reuses them
     let repo = h.env.open()?;
     repo.delete_snapshots(&[first.into()]).map_err(|e| errstr(&e))?;
@@ -161,7 +176,7 @@ fn build(r: &mut Rng) -> Result<Scen, String> {
         let k = r.pick(&ALL_EDITS).clone();
         let _ = apply_edit(r, &mut new_model, &k, &h.tp);
     }
-    Ok(Scen { key: h.key.clone(), base: h.uni.snapshot(), models: h.snaps.clone(), reuse_model, new_model, desc: h.cfg.desc.clone() })
+    Ok(Scen { key: h.key.clone(), base: h.uni.snapshot(), models: h.snaps.clone(), reuse_model, new_model, desc: h.cfg.desc.clone(), base_full, models_full })
 }
 
 fn judge(sc: &Scen, st: &[StoreState], extra: &BTreeMap<Id, ModelTree>, r: &mut Rng, follow_up_prune: bool) -> Vec<(String, String)> {
@@ -235,7 +250,18 @@ fn one_case(ctx: &Ctx, case: u64, r: &mut Rng, rep: &mut Report) {
         ("backup||backup", b_reuse.clone(), b_new.clone()),
         ("backup(new)||prune", b_new.clone(), prune.clone()),
     ];
-    let (pname, a, b) = pairings[(case % 4) as usize].clone();
+    let mut sc = sc;
+    let (pname, a, b) = if case % 5 == 4 {
+        // nothing was forgotten: the prune has nothing to do but sees the packs the backup has uploaded so far
+        sc.base = sc.base_full.clone();
+        sc.models = sc.models_full.clone();
+        let mut idle = PruneSpec::default_safe();
+        idle.no_resize = true;
+        idle.max_unused = Limit::Unlimited;
+        ("backup(new)||prune(nothing to do)", b_new.clone(), Op::Prune { spec: idle })
+    } else {
+        pairings[(case % 5) as usize].clone()
+    };
     let n_a = count_ops(&sc.base, &sc.key, &a);
     rep.max("max_ops_of_first_command", n_a);
     let ks: Vec<u64> = if ctx.tier == Tier::Thorough || n_a <= 12 {
@@ -306,7 +332,7 @@ pub fn run(ctx: &Ctx) -> (Report, Meta) {
     let rep = run_cases(&c, n, &one_case);
     let meta = Meta {
         level: "exploration",
-        rule: "case = scenario (generated config, 3 backups, the first forgotten so that its packs are prunable) x pairing {backup of the forgotten content || prune, prune || that backup, backup || backup, backup of new content || prune}; the first command runs in its own thread through repository handles of its own party and is PARKED by the storage gate at its k-th backend operation (reads, lists, writes all count) while the second command runs to completion, then resumes; k sweeps all operations (thorough) or a boundary+random sample (quick); prune is non-instant with keep-delete 1 h. After a follow-up prune (not for backup||backup): check(read_data) clean, every snapshot present reads back equal to the model of the source it was taken from, raw reachability complete. distinct_nontrivial = distinct (pairing, position class) with real overlap".to_string(),
+        rule: "case = scenario (generated config, 3 backups, the first forgotten so that its packs are prunable) x pairing {backup of the forgotten content || prune, prune || that backup, backup || backup, backup of new content || prune, backup of new content || prune on the repository where nothing was forgotten (the prune has nothing to do)}; the first command runs in its own thread through repository handles of its own party and is PARKED by the storage gate at its k-th backend operation (reads, lists, writes all count) while the second command runs to completion, then resumes; k sweeps all operations (thorough) or a boundary+random sample (quick); prune is non-instant with keep-delete 1 h. After a follow-up prune (not for backup||backup): check(read_data) clean, every snapshot present reads back equal to the model of the source it was taken from, raw reachability complete. distinct_nontrivial = distinct (pairing, position class) with real overlap".to_string(),
         exhaustive: false,
         assumptions: vec![
             "overlap granularity is one backend operation; both commands run in one process on handles of their own (the library takes no locks)".to_string(),
